@@ -273,6 +273,7 @@ func run(c *gx.Ctl, p *Params) *gx.Outcome {
 		}
 	}
 	c.AutoRelease = func(site string) bool { return !p.Gates[site] }
+	c.StepLimitOutcome = true
 
 	var creators []func()
 	for i := 0; i < p.Members; i++ {
@@ -522,6 +523,19 @@ func (r *rig) digest() string {
 
 func (r *rig) judge() *gx.Outcome {
 	out := &gx.Outcome{}
+	if r.c.StepLimit {
+		// the group never came to rest: some loop of the implementation (a partition consumer that re-dispatches for
+		// ever, a member that rejoins for ever) keeps producing work although every request is answered faithfully
+		tr := r.c.Trace()
+		if len(tr) > 14 {
+			tr = tr[len(tr)-14:]
+		}
+		prop := "C07"
+		if r.p.CloseAny {
+			prop = "C12"
+		}
+		out.Violate(prop, "group-never-comes-to-rest", "after %d decisions the consumer group is still busy and no Consume/Close has completed its course; last decisions %v", r.c.MaxSteps, tr)
+	}
 	r.mu.Lock()
 	defer r.mu.Unlock()
 	p := r.p
